@@ -210,6 +210,8 @@ def hlookup(lookup_value, table_array, row_index_num, range_lookup=True):
     if not list_like(table_array):
         return NA_ERROR
 
+    # a fractional index is truncated
+    row_index_num = int(row_index_num)
     if row_index_num <= 0:
         return VALUE_ERROR
 
@@ -243,6 +245,10 @@ def index(array, row_num, col_num=None):
             return VALUE_ERROR
     if not list_like(array[0]):
         return VALUE_ERROR
+
+    # fractional indices are truncated
+    row_num = int(row_num or 0)
+    col_num = int(col_num or 0)
 
     if is_address(array[0][0]):
         assert len({a for a in flatten(array)}) == 1
@@ -482,6 +488,8 @@ def vlookup(lookup_value, table_array, col_index_num, range_lookup=True):
     if not list_like(table_array):
         return NA_ERROR
 
+    # a fractional index is truncated
+    col_index_num = int(col_index_num)
     if col_index_num <= 0:
         return '#VALUE!'
 
